@@ -413,7 +413,11 @@ func (e *taintEngine) analyze(fn *ssa.Function) {
 		})
 	}
 	// value propagation to a fixpoint
+	var at ssa.Instruction // the instruction whose operands are being judged (for sort kills)
 	isTainted := func(v ssa.Value) (string, bool) {
+		if at != nil && c.sortedBefore(v, at) {
+			return "", false
+		}
 		if w, ok := tainted[v]; ok {
 			return w, true
 		}
@@ -425,6 +429,7 @@ func (e *taintEngine) analyze(fn *ssa.Function) {
 	for round := 0; round < 50; round++ {
 		progress := false
 		allInstrs(fn, func(in ssa.Instruction) {
+			at = in
 			switch x := in.(type) {
 			case *ssa.Phi:
 				for _, ed := range x.Edges {
@@ -687,21 +692,66 @@ func (e *taintEngine) loopEffect(fn *ssa.Function, x ssa.CallInstruction, why st
 	}
 }
 
-// sortedBefore: an in-place sort of the same value dominates the use.
+// sortedBefore: an in-place sort of the same value (or of the same variable, when the value is a load of a
+// local / captured variable) dominates the use, so the order the value had before no longer matters.
 func (c *Ctx) sortedBefore(v ssa.Value, use ssa.Instruction) bool {
-	if v.Referrers() == nil {
-		return false
-	}
-	for _, ref := range *v.Referrers() {
+	isSortOf := func(ref ssa.Instruction, arg ssa.Value) bool {
 		ci, ok := ref.(ssa.CallInstruction)
 		if !ok {
-			continue
+			return false
 		}
-		if inPlaceSorts[calleeName(ci.Common())] && len(ci.Common().Args) > 0 && ci.Common().Args[0] == v && dominatesInstr(ci, use) {
-			return true
+		a := ci.Common().Args
+		return inPlaceSorts[calleeName(ci.Common())] && len(a) > 0 && a[0] == arg && dominatesInstr(ci, use)
+	}
+	if v.Referrers() != nil {
+		for _, ref := range *v.Referrers() {
+			if isSortOf(ref, v) {
+				return true
+			}
 		}
 	}
-	return false
+	// v = *cell: another load of the same cell was sorted in place before this use, and nothing writes the cell in between
+	ld, ok := v.(*ssa.UnOp)
+	if !ok || ld.Op != token.MUL {
+		return false
+	}
+	cell := ld.X
+	if cell.Referrers() == nil {
+		return false
+	}
+	var sortCall ssa.Instruction
+	for _, ref := range *cell.Referrers() {
+		l2, ok := ref.(*ssa.UnOp)
+		if !ok || l2.Op != token.MUL || l2.Referrers() == nil {
+			continue
+		}
+		for _, r2 := range *l2.Referrers() {
+			if isSortOf(r2, l2) && dominatesInstr(r2, ld) {
+				sortCall = r2
+			}
+		}
+	}
+	if sortCall == nil {
+		return false
+	}
+	// every writer of the cell (direct store, or a call that receives a closure capturing it) comes before the sort
+	for _, ref := range *cell.Referrers() {
+		switch x := ref.(type) {
+		case *ssa.Store:
+			if x.Addr == cell && !dominatesInstr(x, sortCall) {
+				return false
+			}
+		case *ssa.MakeClosure:
+			if x.Referrers() != nil {
+				for _, user := range *x.Referrers() {
+					if !dominatesInstr(user, sortCall) {
+						return false
+					}
+				}
+			}
+		}
+	}
+	return true
 }
 
 // invokeTargets resolves an interface call through the VTA call graph.
